@@ -26,6 +26,16 @@ Line-protocol front end of the C11 model (requests after the leading `C11` field
                                                `visible-right-after-the-build~ownGlobals (Spec)~visible-at-the-end~heap-after-the-build`,
                                                then the final heap and the final module heap
 
+  objseq <adoptOv> <mods> <back> <builds> <evals>
+                                             → configurations that share host OBJECTS (replacement builtins, host values), built one
+                                               after the other in ONE world (Model.runBuildsO; adoptOv = 0: Module.Override as it is).
+                                               mods/back: the host's modules and the back-pointers of the host's builtins; builds joined
+                                               by `/`, each `opts~dflt~newMods~newBack~rev` (the build's FRESH default objects); evals
+                                               joined by `,`, each `stage~k~access` = the access under the globals of build k in the
+                                               world after build `stage` (stage ≥ k).  Reply: per build (joined by `/`)
+                                               `globals~back~mods` right after the build, then per eval
+                                               `at-the-stage:right-after-its-own-build:built-alone-in-the-initial-world`
+
 Option item: `g;xname;id` (WithGlobal), `d;xname` (WithoutGlobal), `o;xname;id` (WithGlobalOverride), `n`
 (WithoutDefaultGlobals).
 Lists: items joined by `,`, `-` = empty.  Names are `x` + lowercase hex of the bytes.
@@ -279,6 +289,53 @@ def handleHostSeq (adopt heap mods back builds : String) : String :=
     "ok\t" ++ "/".intercalate outs ++ "\t" ++ showMods fin.1.heap ++ "\t" ++ showMods fin.1.mods
   | _, _, _ => "error\tbad-hostseq-request"
 
+def showBack (b : List (Id × Id)) : String :=
+  joinOr (b.map fun e => toString e.1 ++ "=" ++ toString e.2)
+
+def parseBuildO (s : String) : Option Build :=
+  match s.splitOn "~" with
+  | [opts, dflt, nm, nb, rev] => do
+    let opts ← (items opts).mapM parseHOpt
+    let dflt ← parseTable dflt
+    let nm ← parseMods nm
+    let nb ← parseBack nb
+    let c := (opts.foldl (applyHOpt false) ⟨[], none, Cfg.empty⟩).c
+    let ds := if rev == "1" then c.denylist.reverse else c.denylist
+    let os := if rev == "1" then c.overrides.reverse else c.overrides
+    pure ⟨opts, dflt, nm, nb, ds, os⟩
+  | _ => none
+
+def parseStagedEvals (s : String) : Option (List (Nat × Nat × Bool × Name × List Name)) :=
+  (items s).mapM fun it =>
+    match it.splitOn "~" with
+    | [st, k, a] => do
+      let st ← st.toNat?
+      let k ← k.toNat?
+      match ← parseAccesses a with
+      | [acc] => pure (st, k, acc)
+      | _ => none
+    | _ => none
+
+def handleObjSeq (adopt mods back builds evals : String) : String :=
+  match parseMods mods, parseBack back, (builds.splitOn "/").mapM parseBuildO, parseStagedEvals evals with
+  | some mods, some back, some bs, some evs =>
+    let ad := adopt == "1"
+    let w0 : World := ⟨[], mods, back⟩
+    let r := (runBuildsO ad w0 bs).2
+    let alones := bs.map (buildO ad w0)
+    let outs := r.map fun bw =>
+      showTable bw.1.own ++ "~" ++ showBack bw.2.back ++ "~" ++ showMods bw.2.mods
+    let ev := evs.map fun e =>
+      match r[e.2.1]?, r[e.1]?, alones[e.2.1]? with
+      | some kb, some sb, some al =>
+        let a := e.2.2
+        showOpt (accessIn sb.2 kb.1.own a.1 a.2.1 a.2.2) ++ ":" ++
+          showOpt (accessIn kb.2 kb.1.own a.1 a.2.1 a.2.2) ++ ":" ++
+          showOpt (accessIn al.1 al.2.own a.1 a.2.1 a.2.2)
+      | _, _, _ => "e"
+    "ok\t" ++ "/".intercalate outs ++ "\t" ++ joinOr ev
+  | _, _, _, _ => "error\tbad-objseq-request"
+
 def handle : List String → String
   | ["universe"] => joinOr (Risor.Generated.C11.attrUniverse.map fun n => showName (strBytes n))
   | ["facts"] =>
@@ -297,6 +354,7 @@ def handle : List String → String
   | ["optspec", opts, bs] => handleOptSpec opts bs
   | ["vmseq", mods, back, tables, evals] => handleVmSeq mods back tables evals
   | ["hostseq", adopt, heap, mods, back, builds] => handleHostSeq adopt heap mods back builds
+  | ["objseq", adopt, mods, back, builds, evals] => handleObjSeq adopt mods back builds evals
   | ["shared", a, b, ex] =>
     match parseIds a, parseIds b, parseIds ex with
     | some a, some b, some ex => "ok\t" ++ joinOr ((sharedIds a b ex).map toString)
